@@ -259,6 +259,10 @@ func (e *Env) lvalue(x interface{}) *PtrV { return e.lvalueExpr(x) }
 // ---------- modular use of a contract at a call site ----------
 
 func (ex *Exec) applyContract(st *State, fr *Frame, ins ssa.Instruction, f *ssa.Function, ct *Contract, args []Value, dst ssa.Value) {
+	if ex.UsedContracts == nil {
+		ex.UsedContracts = map[string]*Contract{}
+	}
+	ex.UsedContracts[f.String()] = ct
 	names := ex.paramNames(f, args, nil, false)
 	var errs []string
 	env := &Env{ex: ex, st: st, names: names, errs: &errs}
